@@ -786,6 +786,19 @@ Fixpoint run_updates (has_family : bool) (x : ectx) (polr : policy_fn_r) (emax :
         Ok (fst r1 ++ fst r2, snd r2)))
   end.
 
+(* PeerSession::apply_refresh_walk (route refresh / soft reset out, since 13d2f6a): every
+   destination of the walk goes through process_nlri_change once per path, that path named as
+   replaced, on a session with send-max > 1 (so that the Add-Path branch re-sends it); once,
+   with no replaced id, otherwise.  A destination without paths is not looked at on an Add-Path
+   session. *)
+Definition with_replaced (c : change) (r : option N) : change :=
+  {| c_family := c_family c; c_dest := c_dest c; c_best_changed := c_best_changed c;
+     c_any_changed := c_any_changed c; c_replaced := r; c_paths := c_paths c |}.
+
+Definition refresh_changes (emax : N) (c : change) : list change :=
+  if 1 <? emax then map (fun p => with_replaced c (Some (p_lpid p))) (c_paths c)
+  else [with_replaced c None].
+
 (* PendingTx (peer_tx.rs): reach / unreach keyed by (path id - 0 unless Add-Path TX -, NLRI),
    the last operation for a key wins; drain_messages hands over what is pending.  The model
    has one NLRI per destination id. *)
@@ -986,7 +999,9 @@ Inductive case :=
               (accept_all : bool) (rts : list (list N))                 (* 14: with an RtcFilter *)
 | CRestale (old_best : option N) (any_from_addr : bool) (addr : ipaddr) (paths : list path) (* 15: restale_llgr's stream *)
 | CUpdates (has_family : bool) (x : ectx) (emax : N) (raddr : ipaddr) (cid : option N) (cs : list change)
-           (pol : option (stmt * option prepend_action * disp)) (probe : list (N * N)).  (* 17: handle_prefix_update + PendingTx *)
+           (pol : option (stmt * option prepend_action * disp)) (probe : list (N * N))   (* 17: handle_prefix_update + PendingTx *)
+| CRefresh (x : ectx) (emax : N) (raddr : ipaddr) (cid : option N) (before walk : list change)
+           (pol1 pol2 : option (stmt * option prepend_action * disp)) (probe : list (N * N)). (* 18: then apply_refresh_walk *)
 
 Definition run_case (c : case) : val :=
   match c with
@@ -1035,4 +1050,18 @@ Definition run_case (c : case) : val :=
                                   end) probe;
                  VList (fun d => VNs (sort_n (em_sent_path_ids (snd r) d))) (map fst probe)])
           (run_updates hf x polr emax raddr cid cs (if emax =? 1 then ENone else EAddPath []))
+  | CRefresh x emax raddr cid before walk pol1 pol2 probe =>
+    let mk := fun pol => match pol with
+                         | None => lift_policy no_policy
+                         | Some (st, pre, dflt) => stmt_policy_r x raddr st pre dflt
+                         end in
+    v_res (fun r =>
+             VL [VList (fun dk => match pending_after (negb (emax =? 1)) (fst r) (fst dk) (snd dk) PNothing with
+                                  | PNothing => VL []
+                                  | PUnreach => VL [VN 0]
+                                  | PReach nh a => VL [VN 1; VOpt v_nh nh; v_attrs a]
+                                  end) probe;
+                 VList (fun d => VNs (sort_n (em_sent_path_ids (snd r) d))) (map fst probe)])
+          (rbind (run_updates true x (mk pol1) emax raddr cid before (if emax =? 1 then ENone else EAddPath []))
+                 (fun r1 => run_updates true x (mk pol2) emax raddr cid (flat_map (refresh_changes emax) walk) (snd r1)))
   end.
